@@ -410,6 +410,51 @@ def grid_stack(ctx, p):
                message="component 0 (y) then component 1 (x) must each be converted with the same mask and stacked back in that order on the last axis")
 
 
+def convert_dispatch(ctx, p):
+    """convert_array_2d / convert_grid_2d hand back the form that was asked for: decided on the decision table of each converter (sa/paths.py).  On every returning path
+    the input's form (native iff its rank is 2, resp. 3) and the requested form (store_native) are read off the path's conditions; the value returned must be the input
+    itself when they agree, the slimming routine applied to it when a native input is to be stored slim, the native routine when a slim input is to be stored native."""
+    import re
+    rule = "C01.convert"
+    from .. import paths
+    G2 = "autoarray.structures.grids.grid_2d_util"
+    for key in (f"{A2}:convert_array_2d", f"{G2}:convert_grid_2d"):
+        f = p.func(key)
+        qs = paths.returns(paths.path_summaries(f, project=p) or [])
+        seen = set()
+        bad = []
+        for q in qs:
+            native, N = None, None
+            for t, tr in q.conds:
+                m = re.fullmatch(r"(len\(.*\.shape\)|.*\.ndim|np\.ndim\(.*\)) == ([23])", t)
+                if m and "store_native" not in t:
+                    native, N = tr, t
+            store = q.holds("store_native")
+            eq = q.holds(f"({N}) == store_native") if N else None
+            if eq is None and N:
+                eq = q.holds(f"store_native == ({N})")
+            if native is None:
+                continue
+            if store is None and eq is not None:
+                store = native if eq else (not native)
+            if store is None or (eq is not None and eq != (native == store)):
+                continue   # (not decided on this path / a combination of tests that cannot occur)
+            v = q.value
+            callee = norm_text(v.func).split(".")[-1] if isinstance(v, ast.Call) else ""
+            kind = "slim" if callee.endswith(("slim_from", "_to_slim")) else ("native" if callee.endswith(("native_from", "_to_native")) else "")
+            want = "" if native == store else ("native" if store else "slim")
+            # the `_to_slim` / `_to_native` converters take either form and leave an input that already has the requested one in that form (native ones masked: C01.masking)
+            if want == "" and ((kind == "native" and store and callee.endswith("_to_native")) or (kind == "slim" and not store and callee.endswith("_to_slim"))):
+                kind = ""
+            seen.add((native, store))
+            if kind != want:
+                bad.append((q, f"input native={native}, store_native={store}: returns {q.text[:70]}"))
+        ok = not bad and {(True, True), (True, False), (False, True), (False, False)} <= seen
+        ctx.ob(rule, key, ok, where=f, node=(bad[0][0].node if bad else None) or f.node, construct=(bad[0][1] if bad else f"forms seen {sorted(seen)}"),
+               message="the converter must return its input unchanged in form when it already has the requested form, slim a native input when store_native is False and "
+                       "expand a slim input when store_native is True (all four combinations decided)")
+
+
 def run(ctx):
     p = ctx.p
     K = KEval(p)
@@ -419,8 +464,10 @@ def run(ctx):
     ctx.rule("C01.compose", "slim -> native composes the index list of the same mask with the scatter")
     ctx.rule("C01.partition", "masked / unmasked lists: one nest parameterised by the flag records the row-major flattened index; both lists come from it with flag True / False")
     ctx.rule("C01.masking", "native inputs are multiplied by the inverted mask on every non-skip path of convert_array_2d / convert_grid_2d (both components) / convert_array_2d_to_native")
+    ctx.rule("C01.convert", "convert_array_2d / convert_grid_2d return the input as it is, slimmed or expanded according to (form of the input, store_native): decision table, four combinations")
     ctx.rule("C01.wiring", ".slim / .native of Array2D, Grid2D, VectorYX2D, Array1D, Grid1D rebuild from self on self.mask with store_native False / True")
     ctx.rule("C01.components", "grid slim/native conversion handles component 0 then 1 with one mask and stacks them back in order")
+    convert_dispatch(ctx, p)
     gather(ctx, p, K, f"{A2}:array_2d_slim_from", "mask_2d", lambda a, b: E_("array_2d_native", a, b))
     gather(ctx, p, K, f"{A2}:array_2d_slim_complex_from", "mask", lambda a, b: E_("array_2d_native", a, b))
     gather(ctx, p, K, f"{M2}:native_index_for_slim_index_2d_from", "mask_2d", lambda a, b: {(ZERO,): a, (ONE,): b})
@@ -453,6 +500,7 @@ _A = "autoarray/structures/arrays/array_2d_util.py"
 _M = "autoarray/mask/mask_2d_util.py"
 _G = "autoarray/structures/grids/grid_2d_util.py"
 CONTROLS = [
+    Control("converter dispatch inverted: slim routine chosen when store_native is set (found by mutation fuzzing)", "autoarray/structures/arrays/array_2d_util.py", in_func("convert_array_2d", "    elif not store_native:\n        return array_2d_slim_from(", "    elif store_native:\n        return array_2d_slim_from("), "C01.convert"),
     Control("gather loops column-major", _A, in_func("array_2d_slim_from", "for y in range(mask_2d.shape[0]):\n        for x in range(mask_2d.shape[1]):", "for x in range(mask_2d.shape[1]):\n        for y in range(mask_2d.shape[0]):"), "C01.order"),
     Control("twin: increment first, store at index - 1", _A, in_func("array_2d_slim_complex_from", "                array_1d[index] = array_2d_native[y, x]\n                index += 1", "                index += 1\n                array_1d[index - 1] = array_2d_native[y, x]"), None, twin=True),
     Control("gather increments before store", _A, in_func("array_2d_slim_complex_from", "                array_1d[index] = array_2d_native[y, x]\n                index += 1", "                index += 1\n                array_1d[index] = array_2d_native[y, x]"), "C01.order"),
